@@ -155,22 +155,28 @@ def ia32_nooperand(obj):
 @ispec_ia32(" 8>[ {98}         ]", mnemonic="CDQE", type=type_data_processing,__obj=precond_REX)
 @ispec_ia32(" 8>[ {99}         ]", mnemonic="CQO", type=type_data_processing,__obj=precond_REX)
 def ia32_nooperand(obj):
-    if obj.misc["opdsz"]:
-        if obj.mnemonic == "CWDE":
+    # REX.W selects the 64-bit form (and takes precedence over the 66 prefix),
+    # a REX prefix without W does not change the operand size:
+    W = obj.misc["REX"][0] if obj.misc["REX"] else 0
+    if W == 1:
+        if obj.mnemonic in ("CWDE", "CBW"):
+            obj.mnemonic = "CDQE"
+        if obj.mnemonic in ("CDQ", "CWD"):
+            obj.mnemonic = "CQO"
+        if obj.mnemonic in ("IRETD", "IRET"):
+            obj.mnemonic = "IRETQ"
+    elif obj.misc["opdsz"]:
+        if obj.mnemonic in ("CWDE", "CDQE"):
             obj.mnemonic = "CBW"
-        if obj.mnemonic == "CDQ":
+        if obj.mnemonic in ("CDQ", "CQO"):
             obj.mnemonic = "CWD"
         if obj.mnemonic == "IRETD":
             obj.mnemonic = "IRET"
-    if obj.misc["REX"]:
-        REX = obj.misc["REX"]
-        W, R, X, B = REX
-        if obj.mnemonic == "CWDE":
-            obj.mnemonic = "CDQE"
-        if obj.mnemonic == "CDQ":
-            obj.mnemonic = "CQO"
-        if obj.mnemonic == "IRETD" and W == 1:
-            obj.mnemonic = "IRETQ"
+    else:
+        if obj.mnemonic == "CDQE":
+            obj.mnemonic = "CWDE"
+        if obj.mnemonic == "CQO":
+            obj.mnemonic = "CDQ"
 
 
 # instructions for which REP/REPNE is valid (see formats.py):
